@@ -75,6 +75,8 @@ def run_property(mod, tier):
     mismatches = []
     abstained = 0
     for c, m, i in zip(cases, model_out, impl_out):
+        if i == "NOT-RUN":
+            continue
         ii = strip_side(i)
         f = mod.oracle(c, ii, side(i))
         if f is not None:
